@@ -275,6 +275,7 @@ StepHist(s, e) ==
          Chk(e.pos = Len(ex0.hist) + 1, "ENV", "HistObservedInOrder")
          \o ChkX(~FrameIsExpress(s) \/ (ex0.sm # "" /\ ex0.sm \in DOMAIN s.smtype /\ s.smtype[ex0.sm] # "EXPRESS"), "C09", "ExpressStoresNothing:history", x, e.ev.type)
          \o ChkX(HistAppendOK(ex0.hist, e.ev), "C09", "HistoryWellFormed", x, e.ev)
+         \o ChkX(ExitFollowsEnter(ex0.hist, e.ev), "C09", "ExitFollowsEnter", x, [type |-> e.ev.type, name |-> e.ev.name])
          \o ChkX(NothingAfterTerminal(h1), "C09", "NothingAfterTerminal", x, e.ev.type)
          \o ChkX(~again, "C06", "FanOutFailsOnce", x, id))
 
